@@ -263,6 +263,7 @@ RULES = [
 def rule_inventory(ctx):
     from . import inventory
     inventory.check(ctx, ['task-set-take', 'file:task_set'])
+    inventory.check_narrowing(ctx)
 
 
 RULES.append(("C14.h", "state-mutation inventory: no new site that changes the content of the state this property rests on", rule_inventory))
